@@ -186,7 +186,7 @@ func init() {
 	core.Register(&core.Prop{
 		ID:    "C11",
 		Level: "model_checking",
-		Rule: "every corpus template (quick: plus every <=1 gap insertion; thorough: <=2) x {no resolver, goast resolver}: Decorator.Map after DecorateFile and Restorer.Map after RestoreFile " +
+		Rule: "every corpus template (quick: plus every <=1 gap insertion; thorough: <=2), every file of the non-canonical corpus as written (stray semicolons, redundant parentheses, unsorted imports; <=1 insertion, not canonicalised) x {no resolver, goast resolver}: Decorator.Map after DecorateFile and Restorer.Map after RestoreFile " +
 			"(with import management when a resolver is used, so identifiers expand to selectors) are checked against ast.Inspect / reflection walks: total, typed, in-tree, mutually inverse (collapsed selectors excepted), " +
 			"commuting with every parent/child edge, no nil keys; plus every ordered pair of import-bearing files restored by one Restorer with import management, both files' maps examined after the second restore; every import-bearing file restored after an edit that forces the restorer to change the import declarations (imports removed so that they are recreated, renamed through Alias, a new reference added, all references removed); and DecorateNode on a 3-file *ast.Package with and without a resolver; state = (canonical text, resolver); non-trivial = file with a collapsed selector or an inserted decoration",
 		Assumptions: []string{"syntactic children are the Node-typed fields found by reflection on go/ast and dst types"},
@@ -195,9 +195,30 @@ func init() {
 			for _, t := range importTemplates() {
 				u = append(u, "one-restorer/"+t.Name)
 			}
-			return append(u, "package-entry")
+			u = append(u, "package-entry")
+			for _, t := range gen.Load("noncanonical.txt") {
+				u = append(u, "raw/"+t.Name)
+			}
+			return u
 		},
 		Run: func(ctx *core.Ctx, unit int) {
+			if n := len(gen.Templates()) + len(importTemplates()) + 1; unit >= n {
+				// valid Go that is not gofmt's output (stray semicolons, redundant parentheses ...), as written
+				// and with every single insertion, NOT canonicalised
+				t := gen.Load("noncanonical.txt")[unit-n]
+				forEachInsertion(ctx, t, gen.Sigma, 1, 0, 1, func(cand string, ins []gen.Ins, _ []int) {
+					if !gen.Parses(cand) {
+						return
+					}
+					for _, res := range []bool{false, true} {
+						cs := c11Case{Src: cand, Resolver: res, Template: t.Name}
+						ctx.State(fmt.Sprint(res, cand), true)
+						ctx.R.Transitions++
+						ctx.Eval(cs, c11Check(cs))
+					}
+				})
+				return
+			}
 			if unit == len(gen.Templates())+len(importTemplates()) {
 				// DecorateNode(*ast.Package), the path ParseDir takes: with and without a resolver
 				for _, res := range []bool{false, true} {
